@@ -109,7 +109,7 @@ func (w *World) parseContracts(pkgs []*packages.Package) error {
 					if strings.HasPrefix(c.Text, "//@") {
 						lines = append(lines, strings.TrimPrefix(c.Text, "//@"))
 						pp := w.fset.Position(c.Pos())
-						poss = append(poss, fmt.Sprintf("%s:%d", strings.TrimPrefix(pp.Filename, "/repo/"), pp.Line))
+						poss = append(poss, fmt.Sprintf("%s:%d", strings.TrimPrefix(pp.Filename, repoDir()+"/"), pp.Line))
 					}
 				}
 			}
